@@ -99,3 +99,233 @@ DIST_QUOTIENT = MapperContract("C11.DistributeMapper.map_quotient", "pymbolic.ma
                                ensures=[("value", quotient_post)], setup=setup, classes=["Quotient"], extra_args=False, property_id="C11")
 
 MAPPER_JOBS = [(m, "Sum") for m in FLATTEN_SUM] + [(m, "Product") for m in FLATTEN_PRODUCT] + [(DIST_QUOTIENT, "Quotient")]
+
+
+# ----------------------------------------------------------------------------- the worklist loops of flattened_sum / flattened_product
+# Abstract commutative monoid, written additively over the integers: ival(x) is the value of a term, fsum(s) the monoid
+# sum over a sequence.  The statements proved are linear in these uninterpreted symbols, so they hold in every commutative
+# monoid -- (Q, +, 0) for flattened_sum and (Q, *, 1) for flattened_product alike.  bad(x) = 1 iff x is a node of the
+# flattened class or a neutral element (is_zero / is_zero(x - 1)); tsz(x) >= 1 is the size measure for termination.
+from pyvc.api import FunctionContract, Loop, assume
+
+
+def ival(x):
+    raise NotImplementedError("ghost")
+
+
+def bad(x):
+    raise NotImplementedError("ghost")
+
+
+def tsz(x):
+    raise NotImplementedError("ghost")
+
+
+def zc(x):
+    raise NotImplementedError("ghost")
+
+
+def fz(s):
+    raise NotImplementedError("ghost")
+
+
+def fsum(s):
+    raise NotImplementedError("ghost")
+
+
+def fcnt(s):
+    raise NotImplementedError("ghost")
+
+
+def fsz(s):
+    raise NotImplementedError("ghost")
+
+
+def fold_hooks(I):
+    """Uninterpreted folds f over an element function e, without quantifiers: a fold is decomposed syntactically along
+    concat / unit / empty; for an opaque sequence s the ground instances len(s)=0 -> f(s)=0, len(s)=1 -> f(s)=e(s[0]) and
+    the range facts are added; when a list is split by pop() the instance f(s) = e(head) + f(rest) is added."""
+    import z3
+    from pyvc import smt
+    from pyvc.smt import S, V, Int, fn
+    from pyvc.values import SymInt
+    ctx = I.ctx
+    seen = set()
+    pairs = []
+
+    def elem_term(ename, xt):
+        e = fn(ename, V, Int)
+        t = e(xt)
+        key = ("e", ename, xt.get_id())
+        if key not in seen:
+            seen.add(key)
+            if ename in ("bad", "zc"):
+                ctx.assume(z3.And(t >= 0, t <= 1))
+            if ename == "tsz":
+                ctx.assume(t >= 1)
+            if z3.is_app(xt) and xt.decl().name() == "box_int":
+                product = getattr(I, "flatten_mode", "sum") == "product"
+                if ename == "ival" and not product:
+                    ctx.assume(t == xt.arg(0))                             # additive reading: numbers denote themselves
+                if ename == "ival" and product:
+                    ctx.assume(z3.Implies(xt.arg(0) == 1, t == 0))         # multiplicative reading: 1 is the unit ...
+                if ename == "zc" and product:
+                    ctx.assume(t == z3.If(xt.arg(0) == 0, 1, 0))           # ... and exactly the number 0 is zero-valued
+        return t
+
+    def fold_term(ename, fname, sq):
+        sq = z3.simplify(sq)
+        k = sq.decl().kind()
+        if k == z3.Z3_OP_SEQ_EMPTY:
+            return z3.IntVal(0)
+        if k == z3.Z3_OP_SEQ_UNIT:
+            return elem_term(ename, sq.arg(0))
+        if k == z3.Z3_OP_SEQ_CONCAT:
+            return z3.Sum([fold_term(ename, fname, c) for c in sq.children()])
+        f = fn(fname, S, Int)
+        t = f(sq)
+        key = ("f", fname, sq.get_id())
+        if key not in seen:
+            seen.add(key)
+            ctx.assume(z3.Implies(z3.Length(sq) == 0, t == 0))
+            ctx.assume(z3.Implies(z3.Length(sq) == 1, t == elem_term(ename, sq[0])))
+            if fname in ("fcnt", "fsz", "fz"):
+                ctx.assume(t >= 0)
+        return t
+
+    for elem, fold in (("ival", "fsum"), ("bad", "fcnt"), ("tsz", "fsz"), ("zc", "fz")):
+        pairs.append((elem, fold))
+
+        def eh(I, args, kwargs, star, dstar, node, elem=elem):
+            return SymInt(elem_term(elem, I.lift(args[0])))
+
+        def fh(I, args, kwargs, star, dstar, node, elem=elem, fold=fold):
+            return SymInt(fold_term(elem, fold, I.as_seq(args[0])))
+        I.contracts[id(globals()[elem])] = eh
+        I.contracts[id(globals()[fold])] = fh
+
+    def getattr_hook(I, obj, name):
+        """x.children for an opaque x that the path conditions make an instance of Sum / Product: the field projection."""
+        if name != "children":
+            return None
+        from pyvc.values import SymSeq
+        for k in (p.Sum, p.Product):
+            b = I.isinst_term(obj.t, k)
+            r, _ = smt.check(ctx, I.pcs + [z3.Not(b)], rlimit=5_000_000)
+            if r == "unsat":
+                sq = fn(f"fld_{k.__name__}_children", V, S)(obj.t)
+                return SymSeq(sq, "tuple")
+        return None
+    I.builtin_handlers["__getattr_hook__"] = getattr_hook
+
+    def is_zero_contract(I, args, kwargs, star, dstar, node):
+        """Assumed contract of primitives.is_zero (A-RING, bounded-validated in C03): the real body runs; when it answers True
+        the argument denotes zero.  In product mode (I.flatten_mode == 'product'): is_zero(x) -> zc(x) = 1, and
+        is_zero(x - 1) -> x denotes the unit (ival(x) = 0, zc(x) = 0); in sum mode: is_zero(x) -> ival(x) = 0."""
+        from pyvc.values import Conc
+        (x,) = args
+        r = I.call_function(Conc(p.is_nonzero), [x], {})
+        nz = I.truth(r)
+        zero = (not nz) if isinstance(nz, bool) else z3.Not(nz)
+        xt = I.lift(x)
+        fact = None
+        if getattr(I, "flatten_mode", "sum") == "sum":
+            fact = elem_term("ival", xt) == 0
+        elif z3.is_app(xt) and xt.decl().name() == "py_sub" and z3.is_app(xt.arg(1)) and xt.arg(1).decl().name() == "box_int" \
+                and z3.is_int_value(xt.arg(1).arg(0)) and xt.arg(1).arg(0).as_long() == 1:
+            y = xt.arg(0)
+            fact = z3.And(elem_term("ival", y) == 0, elem_term("zc", y) == 0)
+        else:
+            fact = elem_term("zc", xt) == 1
+        if zero is True:
+            ctx_fact = fact
+        elif zero is False:
+            ctx_fact = None
+        else:
+            ctx_fact = z3.Implies(zero, fact)
+        if ctx_fact is not None:
+            I.pcs.append(ctx_fact)
+        return Conc(zero) if isinstance(zero, bool) else __import__("pyvc.values", fromlist=["SymBool"]).SymBool(zero)
+    I.contracts[id(p.is_zero)] = is_zero_contract
+
+    def on_split(I, old_t, el, rest, first):
+        for elem, fold in pairs:
+            I.pcs.append(fold_term(elem, fold, old_t) == elem_term(elem, el) + fold_term(elem, fold, rest))
+    I.seq_split_hooks = [on_split]
+
+
+def same_sign(a, b):
+    """For non-negative counts: a > 0 iff b > 0."""
+    if a > 0:
+        return b > 0
+    return b <= 0
+
+
+def make_flatten_contract(fname, cls_name, mode):
+    cls = getattr(p, cls_name)
+
+    def setup(I, inputs):
+        I.flatten_mode = mode
+
+    def neutral(x):
+        return p.is_zero(x) if mode == "sum" else p.is_zero(x - 1)
+
+    def facts(x):
+        """Instances, at the term x, of the definitions of the denotation (an n-ary node denotes the fold over its children;
+        in a product it is zero-valued iff some child is), of the size measure and of 'bad' (node of the flattened class or
+        neutral element).  Evaluated in the order the code evaluates them, so that the same terms arise."""
+        try:
+            neut = neutral(x)
+        except Exception:       # noqa: BLE001  (not an element the function accepts: not neutral)
+            neut = False
+        is_k = isinstance(x, cls)
+        if is_k:
+            node_defs(x)
+        assume(bad(x) == (1 if (is_k or neut) else 0))
+        return True
+
+    def node_defs(x):
+        assume(ival(x) == fsum(x.children))
+        assume(tsz(x) == 1 + fsz(x.children))
+        assume(zc(x) == (1 if fz(x.children) > 0 else 0))
+        return True
+
+    def inv(v):
+        zeros_kept = mode == "sum" or same_sign(fz(v.done) + fz(v.queue), fz(v.old_terms))
+        return fsum(v.done) + fsum(v.queue) == fsum(v.old_terms) and zeros_kept and fcnt(v.done) == 0
+
+    def variant(v):
+        return fsz(v.queue)
+
+    def upd(v):
+        facts(v.item)
+        return {}
+
+    def post_flat(terms, result):
+        if isinstance(result, cls):
+            assume(bad(result) == 1)        # definition of 'bad'; excludes the single-remaining-term case (bad == 0 there)
+            return fcnt(result.children) == 0 and len(result.children) >= 2
+        facts(result)
+        if bad(result) == 0:
+            return True
+        # a neutral element is returned only as the value of the empty fold
+        return isinstance(result, int) and result == (0 if mode == "sum" else 1)
+
+    def post_value(terms, result):
+        if isinstance(result, cls):
+            node_defs(result)
+        if mode == "product" and fz(terms) > 0:
+            # some factor denotes zero: so does the result (the early 'return 0', or a product that still holds the factor)
+            return zc(result) == 1 or (isinstance(result, int) and result == 0)
+        return ival(result) == fsum(terms) and (mode == "sum" or zc(result) == 0)
+
+    fc = FunctionContract(f"C11.{fname}", f"pymbolic.primitives:{fname}", [("terms", "list")], setup=setup,
+                          ensures=[("value-preserved", post_value), ("flat", post_flat)], loops={0: Loop(inv, variant, ghost_update=upd)}, property_id="C11")
+    # is_nonzero(None) raises ValueError: the documented reaction to a term that is no expression at all
+    fc.allowed_exc = (ValueError,)
+    return fc
+
+
+FLATTENED_SUM = make_flatten_contract("flattened_sum", "Sum", "sum")
+FLATTENED_PRODUCT = make_flatten_contract("flattened_product", "Product", "product")
+LOOP_FUNCTIONS = [FLATTENED_SUM, FLATTENED_PRODUCT]
